@@ -34,6 +34,26 @@ Hier == { Permute(<< S("top", << Sr("mid", <<-7, 5>>, o1[1], o1[2]), B(7, 0, Rec
 RectOrders == { << S("r", << B(1, 0, Rot(RectPts, k)) >>) >> : k \in 0..3 }
          \cup { << S("r", << B(1, 0, Rot(Rev(RectPts), k)) >>) >> : k \in 0..3 }
          \cup { << S("r", << B(1, 0, Rot(LPts, k)), Bx(2, 2, Rot(Rev(RectPts), k)) >>) >> : k \in 0..5 }
+\* boundaries that are NOT rectangles although they have four vertices (three axis-parallel sides and a slanted one,
+\* parallelogram, kite), a triangle, a 45-degree octagon: every start vertex, both directions; one label inside the bounding
+\* box but outside the polygon (must stay an annotation) and one inside (must name the shape)
+Quads == [ trap45 |-> << <<0,0>>, <<0,6>>, <<4,6>>, <<4,4>> >>,
+           trapgen |-> << <<0,0>>, <<20,0>>, <<20,5>>, <<7,5>> >>,
+           para |-> << <<0,0>>, <<4,0>>, <<6,3>>, <<2,3>> >>,
+           kite |-> << <<0,0>>, <<5,0>>, <<5,5>>, <<3,2>> >>,
+           tri |-> << <<0,0>>, <<7,0>>, <<0,5>> >>,
+           octagon |-> << <<2,0>>, <<4,0>>, <<6,2>>, <<6,4>>, <<4,6>>, <<2,6>>, <<0,4>>, <<0,2>> >> ]
+QuadIn  == [ trap45 |-> <<1,4>>, trapgen |-> <<15,3>>, para |-> <<3,1>>, kite |-> <<4,1>>, tri |-> <<1,1>>, octagon |-> <<3,3>> ]
+QuadOut == [ trap45 |-> <<3,1>>, trapgen |-> <<2,4>>, para |-> <<5,1>>, kite |-> <<2,4>>, tri |-> <<6,4>>, octagon |-> <<0,0>> ]
+NonRect == UNION { { << S("q", << B(3, 0, Rot(Quads[n], k)), Tx(3, QuadIn[n], "inside"), Tx(3, QuadOut[n], "outside") >>) >>
+                       : k \in 0..(Len(Quads[n]) - 1) }
+                   \cup { << S("q", << B(3, 0, Rot(Rev(Quads[n]), k)), Tx(3, QuadOut[n], "outside") >>) >> : k \in 0..(Len(Quads[n]) - 1) }
+                   : n \in DOMAIN Quads }
+QuadPointsOK == \A n \in DOMAIN Quads :
+                  LET xs == { Quads[n][i][1] : i \in 1..Len(Quads[n]) }  ys == { Quads[n][i][2] : i \in 1..Len(Quads[n]) } IN
+                  /\ Inside(QuadIn[n], Quads[n]) /\ ~Inside(QuadOut[n], Quads[n])
+                  /\ \E a, b \in xs : a <= QuadOut[n][1] /\ QuadOut[n][1] <= b
+                  /\ \E a, b \in ys : a <= QuadOut[n][2] /\ QuadOut[n][2] <= b
 Arrays == { << S("top", << Ar("leaf", <<10, 20>>, <<10 + (7 * nc), 20>>, <<10, 20 + (5 * nr)>>, nc, nr, o[1], o[2]) >>), Leaf >>
               : nc \in 1..3, nr \in 1..3, o \in Orient }
      \cup { << Leaf, S("top", << Ar("leaf", <<0, 0>>, <<-12, 0>>, <<0, 22>>, 2, 2, TRUE, 0) >>) >> }
@@ -63,7 +83,7 @@ Mag1 == { << S("a", << [Sr("b", <<3, 4>>, TRUE, 90) EXCEPT !.mag = "mag1"] >>), 
 \* only totality is required of the import (Ok or Err), the label may go either way
 Lenient == { << S("a", << Pa(1, 0, 2, << <<0, 0>>, <<5, 5>> >>), Tx(1, <<2, 2>>, "n") >>) >>,
              << S("a", << Pa(1, 0, 2, << <<3, 3>> >>), Tx(1, <<3, 3>>, "n") >>) >> }
-Libs == Hier \cup RectOrders \cup Arrays \cup Labels \cup Mal \cup Mag1 \cup Lenient
+Libs == Hier \cup RectOrders \cup NonRect \cup Arrays \cup Labels \cup Mal \cup Mag1 \cup Lenient
 Init == c \in Libs
 Next == UNCHANGED c
 Spec == Init /\ [][Next]_c
